@@ -52,6 +52,20 @@ pub fn prehistories() -> Vec<Vec<Action>> {
     ]
 }
 
+/// A fourth pre-history, per program: the PC moved by an evaluated jump (not by goto or by
+/// executing the program), so that anything remembered about "the current PC" is stale.
+pub fn pre_of(prog: &Prog, pres: &[Vec<Action>], idx: usize) -> Vec<Action> {
+    if idx == 3 {
+        prehistory_eval_jump(prog)
+    } else {
+        pres[idx].clone()
+    }
+}
+
+pub fn prehistory_eval_jump(prog: &Prog) -> Vec<Action> {
+    vec![Action::of(Cmd::MoveReg(1, prog.addr_of("end"))), Action::eval("jmp r1", Some(0xC040))]
+}
+
 pub struct Work {
     prog: usize,
     pre: usize,
@@ -127,7 +141,7 @@ pub fn workload(tier: Tier, progs: &[Prog]) -> Vec<Work> {
         }
         offs.sort();
         offs.dedup();
-        for pre in 0..3 {
+        for pre in 0..4 {
             for o in &offs {
                 for label in ["first", "second", "data", "end"] {
                     let l = Loc::Label(label.to_string(), *o);
@@ -203,9 +217,9 @@ pub fn run(ctx: &Ctx) -> i32 {
     let parts = pooled(Some(Env::new(true)), work.len(), 32, Acc::new, |acc, i| {
         let wk = &work[i];
         acc.eval(wk.space);
-        let mut r = judge(&progs[wk.prog], &pres[wk.pre], &wk.action);
+        let mut r = judge(&progs[wk.prog], &pre_of(&progs[wk.prog], &pres, wk.pre), &wk.action);
         if r.is_err() {
-            r = confirm_fresh(|| judge(&progs[wk.prog], &pres[wk.pre], &wk.action));
+            r = confirm_fresh(|| judge(&progs[wk.prog], &pre_of(&progs[wk.prog], &pres, wk.pre), &wk.action));
         }
         match r {
             Ok((refused, pause)) => {
@@ -213,12 +227,12 @@ pub fn run(ctx: &Ctx) -> i32 {
                 acc.gate(if refused { "refused-and-unchanged" } else { "accepted-and-exact" });
                 acc.outcome(format!("{}/{}/{}", wk.space, cmd_kind(&wk.action.cmd), pause));
                 if i % 20011 == 0 {
-                    acc.sample(format!("{i}"), json!({"program": progs[wk.prog].name, "pre": script_of(&pres[wk.pre].iter().collect::<Vec<_>>(), Tail::Eof), "command": wk.action.text, "reference": pause}));
+                    acc.sample(format!("{i}"), json!({"program": progs[wk.prog].name, "pre": script_of(&pre_of(&progs[wk.prog], &pres, wk.pre).iter().collect::<Vec<_>>(), Tail::Eof), "command": wk.action.text, "reference": pause}));
                 }
             }
             Err(m) => {
                 acc.outcome(format!("violation:{}", m.sig));
-                acc.violation(format!("C13/{}", m.sig), m.what, json!({"program": progs[wk.prog].name, "program_index": wk.prog, "pre_index": wk.pre, "source": progs[wk.prog].text, "script": format!("{};{};exit", script_of(&pres[wk.pre].iter().collect::<Vec<_>>(), Tail::Eof), wk.action.text), "work_index": i, "tier": ctx.tier.name()}));
+                acc.violation(format!("C13/{}", m.sig), m.what, json!({"program": progs[wk.prog].name, "program_index": wk.prog, "pre_index": wk.pre, "source": progs[wk.prog].text, "script": format!("{};{};exit", script_of(&pre_of(&progs[wk.prog], &pres, wk.pre).iter().collect::<Vec<_>>(), Tail::Eof), wk.action.text), "work_index": i, "tier": ctx.tier.name()}));
             }
         }
     });
@@ -243,5 +257,5 @@ pub fn replay(ctx: &Ctx, case: &Value) -> Option<Option<String>> {
     let work = workload(tier, &progs);
     let i = case["work_index"].as_u64()? as usize;
     let wk = work.get(i)?;
-    Some(confirm_fresh(|| judge(&progs[wk.prog], &pres[wk.pre], &wk.action)).err().map(|m| format!("{}: {}", m.sig, m.what)))
+    Some(confirm_fresh(|| judge(&progs[wk.prog], &pre_of(&progs[wk.prog], &pres, wk.pre), &wk.action)).err().map(|m| format!("{}: {}", m.sig, m.what)))
 }
